@@ -195,6 +195,21 @@ func classifyMapRange(c *load.Ctx, s *moSite) (verdict, detail, shape string) {
 							}
 						}
 					}
+					// x = x || e, x = x && e, x = x | e … on booleans and integers: the accumulation commutes
+					if x.Tok == token.ASSIGN && i < len(x.Rhs) {
+						if be, ok := ast.Unparen(x.Rhs[i]).(*ast.BinaryExpr); ok {
+							switch be.Op {
+							case token.LOR, token.LAND, token.OR, token.AND, token.ADD, token.MUL, token.XOR:
+								if b, ok := o.Type().Underlying().(*types.Basic); ok && b.Info()&(types.IsBoolean|types.IsInteger) != 0 {
+									lid, lok := ast.Unparen(be.X).(*ast.Ident)
+									rid, rok := ast.Unparen(be.Y).(*ast.Ident)
+									if lok && info.Uses[lid] == o || rok && info.Uses[rid] == o {
+										continue
+									}
+								}
+							}
+						}
+					}
 					if x.Tok == token.ADD_ASSIGN || x.Tok == token.SUB_ASSIGN {
 						if b, ok := o.Type().Underlying().(*types.Basic); ok && b.Info()&types.IsInteger != 0 {
 							continue // integer accumulation commutes
